@@ -377,6 +377,7 @@ def _sys_tick_checks(R, ex, t):
                     raise Violation("C02.live_state", {"op": R.okey(o), "state": o.state().value, "container": c.container_id}, t)
     if R.declared_differs is not None:
         raise Violation("C01.parents_changed", dict(R.declared_differs, when="on arrival"), t)
+    exdrv.check_orphans(ex, R.open_pipes(), t, okey=R.okey)
     for k, p in R.open_pipes():
         rs = p.runtime_status()
         if (k + t) % 4 == 0:
@@ -541,8 +542,17 @@ def run(scn, oracles=(), workload_factory=None, keep_rounds=True):
             tb = traceback.extract_tb(e.__traceback__)
             where = "%s:%s" % (os.path.basename(tb[-1].filename), tb[-1].name) if tb else "?"
             rec.crash = e
-            raise Violation("C08.raises", {"algo": algo, "exc": type(e).__name__, "msg": str(e)[:160],
-                                           "where": where, "multi": cfg["multi"]}, rec.tick)
+            det = {"algo": algo, "exc": type(e).__name__, "msg": str(e)[:160], "where": where, "multi": cfg["multi"]}
+            # an exception that comes out of a shipped policy's own decision function is also that policy failing to
+            # decide: the policy's property claims it through this companion rule
+            owner = {"priority.py": "C12", "priority_pool.py": "C16", "naive.py": "C17", "overbook.py": "C18"}
+            for fr in tb:
+                base_ = os.path.basename(fr.filename)
+                if base_ in owner and os.sep + "scheduler" + os.sep in fr.filename:
+                    det["also"] = [{"rule": owner[base_] + ".scheduler_raised",
+                                    "detail": {"exc": type(e).__name__, "msg": str(e)[:160], "in": "%s:%s" % (base_, fr.name)}}]
+                    break
+            raise Violation("C08.raises", det, rec.tick)
         for o in rec.oracles:
             if hasattr(o, "on_end"):
                 o.on_end(rec, stats)
